@@ -75,6 +75,35 @@ package reader
 //@   modifies nothing
 //@   ensures[C15] result == vr.r.r
 
+// Cache (prefetch / background fetch) leaves the layer readable: it never closes a metadata reader -- neither the
+// layer's own nor a clone made for the walk (a clone of the DB-backed store shares the layer's bucket, and closing it
+// deletes that bucket).
+//@ ghost mdCloses int quiet
+//@ func interface metadata.Reader.Close
+//@   modifies mdCloses
+//@   ensures mdCloses == old(mdCloses) + 1
+//@ func interface metadata.Reader.Clone
+//@   modifies nothing
+//@   ensures result1 == nil ==> result0 != nil
+//@ func golang.org/x/sync/errgroup.WithContext
+//@   trusted
+//@   modifies nothing
+//@   ensures result0 != nil && result1 != nil
+// (what the walk's goroutines do is covered by the contracts of the functions they run)
+//@ func (g *golang.org/x/sync/errgroup.Group) Wait
+//@   trusted
+//@   modifies nothing
+//@ func golang.org/x/sync/semaphore.NewWeighted
+//@   trusted
+//@   modifies nothing
+//@   ensures result != nil
+//@ func (vr *VerifiableReader) Cache
+//@   props C15
+//@   requires vr != nil && vr.r != nil && vr.r.r != nil
+//@   requires forall i int :: 0 <= i && i < len(opts) ==> opts[i] != nil
+//@   loop 0 invariant vr != nil && vr.r != nil && vr.r.r != nil && mdCloses == old(mdCloses)
+//@   ensures[C15] mdCloses == old(mdCloses)
+
 // Cache walk (prefetch and background fetch): for a regular file that passes the filter, one caching task is spawned
 // per chunk, chunk after chunk from offset 0, until the file size is reached or the chunk table has no entry for the
 // position; no file is skipped because part of it is cached already (each task checks its own chunk).
@@ -83,6 +112,12 @@ package reader
 //@   trusted
 //@   modifies spawned
 //@   ensures spawned == old(spawned) + 1
+//@ func (vr *VerifiableReader) cacheWithReader
+//@   props C15
+//@   requires vr != nil && r != nil && eg != nil && sem != nil && filter != nil
+//@   modifies heap(""), spawned, commits, okData, okDigest, vFor[*], fed[*]
+//@ func interface metadata.Reader.ForeachChild
+//@   modifies nothing
 //@ func (vr *VerifiableReader) cacheWithReader$1
 //@   props C15
 //@   arith math
@@ -157,10 +192,13 @@ package reader
 //@   requires vr.r != nil && vr.r.cache != nil && vr.verifier != nil && fr != nil
 //@   assert[C01] before "return w.Commit()" : (v != nil && okDigest == chunkDigest) || vr.lastVerifyErr != nil
 // a verification failure is recorded only inside a critical section of the mode lock in which the mode was seen to be
-// "failures allowed" (this is what orders the record before VerifyTOC's read of it)
+// "failures allowed" (this is what orders the record before VerifyTOC's read of it); a record is never erased (only a
+// non-nil error is ever stored); `allcallers`: every function of the module that calls it is checked for this
 //@ func (vr *VerifiableReader) storeLastVerifyErr
 //@   props C01
+//@   allcallers
 //@   requires held(vr.prohibitVerifyFailureMu)
 //@   requires !vr.prohibitVerifyFailure
+//@   requires err != nil
 //@   modifies vr.lastVerifyErr
 //@   ensures[C01] vr.lastVerifyErr == err
